@@ -365,8 +365,11 @@ func (r *trRun) oneOnOne() {
 		// A connects to B from two goroutines at once (two stores of one instance see the same peer join), B once
 		a.slowSub = 20 * time.Millisecond
 		errs := make(chan error, 3)
-		go func() { errs <- chans[a].Connect(ctx, b.id) }()
-		go func() { errs <- chans[a].Connect(ctx, b.id) }()
+		// (each store connects under its own context, which ends when that store is closed)
+		store1, close1 := context.WithCancel(ctx)
+		store2, close2 := context.WithCancel(ctx)
+		go func() { errs <- chans[a].Connect(store1, b.id) }()
+		go func() { errs <- chans[a].Connect(store2, b.id) }()
 		go func() { errs <- chans[b].Connect(ctx, a.id) }()
 		for i := 0; i < 3; i++ {
 			if err := <-errs; err != nil {
@@ -441,6 +444,30 @@ func (r *trRun) oneOnOne() {
 				r.violate(k, "pairwise", "payloads received over the pairwise channel differ from those the other end sent (own messages must not come back)", want, gotL)
 			}
 		}
+		// a third store of A's instance has the same peer join (its Connect finds the channel there); the two stores that
+		// connected first are closed: the instance is not, and the third store still relies on the channel
+		store3, close3 := context.WithCancel(ctx)
+		if err := chans[a].Connect(store3, b.id); err != nil {
+			r.res.Inconclusive = append(r.res.Inconclusive, "oneonone connect: "+err.Error())
+			return
+		}
+		close1()
+		close2()
+		time.Sleep(20 * time.Millisecond)
+		late := fmt.Sprintf("after-close-%x", rng.Int63())
+		if err := chans[b].Send(ctx, a.id, []byte(late)); err != nil {
+			r.violate(k, "pairwise", "Send failed: "+err.Error(), nil, nil)
+		}
+		r.res.Comparisons++
+		select {
+		case g := <-recv[a]:
+			if g.data != late || g.from != b.id {
+				r.violate(k, "pairwise", "after two of three connected stores were closed a payload arrived changed or misattributed", late, g.data)
+			}
+		case <-time.After(2 * time.Second):
+			r.violate(k, "pairwise", "after the stores that connected first were closed (their contexts ended) a payload sent by the remote peer over the pairwise channel is never delivered, although the instance and a third store connected to the same peer are open", late, nil)
+		}
+		close3()
 		for _, c := range chans {
 			_ = c.Close()
 		}
